@@ -8,21 +8,22 @@ ROOT = os.path.dirname(os.path.dirname(os.path.abspath(__file__)))
 # id -> (technique, level text, level note, design ref)
 CLAIMED = {
     'C28': (
-        'symbolic execution (CrossHair/z3) of RpcMultiNode.request over symbolic node count and outcome vector',
-        'Bounded symbolic model checking: every outcome vector (success/failure per request) and every node count 1..4 '
-        'is a solver variable; all paths are explored and the rotation assertion is discharged on each.',
-        'requests.request is a stub returning 200/404; bound: 6 (quick) / 9 (thorough) requests, <= 4 nodes.',
+        'proxy symbolic execution (bvx/z3) of RpcMultiNode / RpcNode.request over solver-chosen pools and outcome vectors',
+        'Bounded symbolic model checking: what every client request meets (200, 404, permanent 500, transport exception, one or two transient 5xx followed by an answer, six transient 5xx) and - in '
+        'a second family - which address every pool slot holds (repetitions and trailing-slash spellings included) are chosen by the solver; all paths are explored; every HTTP call of client '
+        'request i, internal retries included, must go to the address of slot i mod n.',
+        'requests.request is a recording fake, sleep a no-op; bound: 5 (quick) / 6 (thorough) client requests, <= 4 nodes.',
         'DESIGN.md C28',
     ),
 }
 
 CLAIMED.update({
     'C26': (
-        'symbolic execution (CrossHair/z3) of RpcNode.request over symbolic response-class sequences and status codes',
-        'Bounded symbolic model checking of the retry loop: the class of each of up to 7 responses and the status code inside '
-        'the class are solver variables; number of requests, every sleep delay and the returned/raised outcome are compared with '
-        'the retry rule of the property on every path.',
-        'requests.request/sleep are stubs; 9 response classes; log formatting (json.dumps/pformat) stubbed to constants.',
+        'proxy symbolic execution (bvx/z3) of RpcNode.request over solver-chosen response-class sequences and symbolic status codes',
+        'Bounded symbolic model checking of the retry loop: the class of each of up to 7 responses (14 classes, incl. two-error bodies and bodies labelled JSON that do not parse) is chosen by the '
+        'solver and the status code inside the class is a symbolic integer; number of requests, every sleep delay and the returned/raised outcome (any other escaping exception included) are compared '
+        'with the retry rule of the property on every path.',
+        'requests.request/sleep are stubs; 14 response classes; log formatting (json.dumps/pformat) stubbed to constants.',
         'DESIGN.md C26',
     ),
     'C27': (
@@ -227,7 +228,7 @@ CLAIMED.update({
         'Bounded symbolic model checking over crash points: where the failing cells are inserted, which body they run, after which instruction they fail and whether they fail inside DIP '
         'are solver variables, all pushed values are symbolic; after every successful cell the stack (incl. big_map ids, entries, removals), the protected-prefix counter, the context '
         'counters/registries and every COMMIT lazy diff/result must equal those of the session with the failing cells removed.',
-        'Fixed skeleton of 13 cells, 6 failing-cell bodies; the PLY parser is replaced by a table lookup (cells are Micheline).',
+        'Fixed skeleton of 13 cells, 7 failing-cell bodies; the PLY parser is replaced by a table lookup (cells are Micheline).',
         'DESIGN.md C22',
     ),
 })
